@@ -237,13 +237,16 @@ def ecliptical2equatorial (lon_d lat_d eps_d : Num) : PyRes (Num × Num) :=
   let lon := pradians lon_d
   let lat := pradians lat_d
   let eps := pradians eps_d
-  -- ra = atan2((sin(lon) * cos(eps) - tan(lat) * sin(eps)), cos(lon))
-  let ra := patan2 (psin lon * pcos eps - ptan lat * psin eps) (pcos lon)
-  -- dec = asin(sin(lat) * cos(eps) + cos(lat) * sin(eps) * sin(lon))
-  let y : Num := psin lat * pcos eps + pcos lat * psin eps * psin lon
-  if plt y (-1.0) || plt 1.0 y then .error .valueError else
+  -- x = cos(lat) * cos(lon); y = cos(lat) * sin(lon) * cos(eps) - sin(lat) * sin(eps)
+  let x : Num := pcos lat * pcos lon
+  let y : Num := pcos lat * psin lon * pcos eps - psin lat * psin eps
+  -- z = sin(lat) * cos(eps) + cos(lat) * sin(eps) * sin(lon)
+  let z : Num := psin lat * pcos eps + pcos lat * psin eps * psin lon
+  -- ra = atan2(y, x); dec = atan2(z, sqrt(x * x + y * y))        (cannot raise)
+  let ra := patan2 y x
+  let dec := patan2 z (psqrt (x * x + y * y))
   -- ra = Angle(ra, radians=True).to_positive();  dec = Angle(dec, radians=True)
-  .ok (to_positive (angle_of_rad ra), angle_of_rad (pasin y))
+  .ok (to_positive (angle_of_rad ra), angle_of_rad dec)
 
 /-- `Moon.apparent_equatorial_pos(epoch)` with `deltaPsi` and `epsilon = true_obliquity(epoch)`
     (degrees) as parameters. -/
